@@ -90,12 +90,13 @@ type Specs struct {
 	Lemmas  []*Lemma
 	Ghost   map[string]*GhostField // key: pkgpath.Type.#name
 	GlobalInvs []*GlobalInv
+	GhostVars  map[string]string // $name -> sort
 	Files   []string
 	Guarded []string
 }
 
 func NewSpecs() *Specs {
-	return &Specs{Funcs: map[string]*FuncContract{}, Spec: map[string]*SpecFunc{}, Ghost: map[string]*GhostField{}}
+	return &Specs{Funcs: map[string]*FuncContract{}, Spec: map[string]*SpecFunc{}, Ghost: map[string]*GhostField{}, GhostVars: map[string]string{}}
 }
 
 var reFuncHdr = regexp.MustCompile(`^func\s+(\(\s*\w*\s*(\*?)\s*(\w+)\s*\)\s*)?([\w$.#]+)\s*$`)
@@ -322,6 +323,10 @@ func (sp *Specs) LoadSpecFile(path, pkgPath string) error {
 		case "ghost":
 			// ghost field pkg.Type.#name T
 			parts := strings.Fields(rest)
+			if len(parts) == 3 && parts[0] == "var" && strings.HasPrefix(parts[1], "$") {
+				sp.GhostVars[parts[1]] = parts[2]
+				return nil
+			}
 			if len(parts) != 3 || parts[0] != "field" {
 				return fail("ghost field T.#name type")
 			}
